@@ -73,7 +73,7 @@ func (s *State) SetInt(name string, v int) {
 	}
 }
 func (s *State) Add(name string, d int) int { v := s.Int(name) + d; s.SetInt(name, v); return v }
-func (s *State) Get(name string) string    { return s.Regs[name] }
+func (s *State) Get(name string) string     { return s.Regs[name] }
 func (s *State) Set(name, v string) {
 	if v == "" {
 		delete(s.Regs, name)
@@ -86,12 +86,14 @@ func (s *State) Set(name, v string) {
 type Hooks struct {
 	Call   func(x *Explorer, call *ast.CallExpr, st *State)
 	Assign func(x *Explorer, lhs, rhs ast.Expr, stmt ast.Node, st *State)
-	Defer  func(x *Explorer, d *ast.DeferStmt, st *State)
-	Go     func(x *Explorer, g *ast.GoStmt, st *State)
-	Return func(x *Explorer, r *ast.ReturnStmt, st *State)
-	Lit    func(x *Explorer, lit *ast.FuncLit, st *State)
-	Stmt   func(x *Explorer, n ast.Node, st *State) // every CFG node, before its parts
-	Use    func(x *Explorer, e ast.Expr, st *State) // every evaluated identifier/selector (loads)
+	// PreAssign runs before the facts mentioning lhs are killed (Assign runs after)
+	PreAssign func(x *Explorer, lhs, rhs ast.Expr, stmt ast.Node, st *State)
+	Defer     func(x *Explorer, d *ast.DeferStmt, st *State)
+	Go        func(x *Explorer, g *ast.GoStmt, st *State)
+	Return    func(x *Explorer, r *ast.ReturnStmt, st *State)
+	Lit       func(x *Explorer, lit *ast.FuncLit, st *State)
+	Stmt      func(x *Explorer, n ast.Node, st *State) // every CFG node, before its parts
+	Use       func(x *Explorer, e ast.Expr, st *State) // every evaluated identifier/selector (loads)
 }
 
 type ExitKind int
@@ -512,6 +514,9 @@ func (x *Explorer) use(e ast.Expr, states []*State) {
 }
 
 func (x *Explorer) assign(lhs, rhs ast.Expr, stmt ast.Node, st *State) {
+	if x.Hooks.PreAssign != nil {
+		x.Hooks.PreAssign(x, lhs, rhs, stmt, st)
+	}
 	x.kill(lhs, st)
 	// a local bool assigned a constant becomes a fact
 	if id, ok := Unparen(lhs).(*ast.Ident); ok && rhs != nil && id.Name != "_" {
@@ -528,6 +533,9 @@ func (x *Explorer) assign(lhs, rhs ast.Expr, stmt ast.Node, st *State) {
 }
 
 func (x *Explorer) assignZero(lhs ast.Expr, stmt ast.Node, st *State) {
+	if x.Hooks.PreAssign != nil {
+		x.Hooks.PreAssign(x, lhs, nil, stmt, st)
+	}
 	x.kill(lhs, st)
 	if id, ok := lhs.(*ast.Ident); ok {
 		if o := ObjOf(x.Fn.Info(), id); o != nil {
@@ -1029,7 +1037,6 @@ func (p *Prog) PureCall(info *types.Info, c *ast.CallExpr) bool {
 	return false
 }
 
-
 // PureFn: a module function that assigns only its own locals, has no defer/go/send/receive and
 // calls only pure functions.
 func (p *Prog) PureFn(f *Fn) bool {
@@ -1083,4 +1090,3 @@ func (p *Prog) PureFn(f *Fn) bool {
 	}
 	return pure
 }
-
